@@ -46,6 +46,8 @@ type Store struct {
 	// pause: delay injection INSIDE a storage call (before it executes): the next call matching pausePred
 	// announces itself on PausedCh and waits for Resume. Code that holds its lock across the call keeps
 	// everybody else out meanwhile; code that dropped the lock around its storage I/O lets other calls through.
+	honorCtx bool // calls whose context has ended fail with the context's error (off by default)
+
 	pausePred func(kind string, sets, gets, dels int) bool
 	pausedCh  chan struct{}
 	resumeCh  chan struct{}
@@ -80,6 +82,21 @@ func Hash(m map[string][]byte) string {
 		h.Write([]byte{1})
 	}
 	return hex.EncodeToString(h.Sum(nil)[:8])
+}
+
+// HonorContext makes every later call check its context first, like a storage client backed by a remote
+// service or a database driver does: a call whose context has ended returns the context's error and is not
+// executed (it is not counted as an operation either).
+func (s *Store) HonorContext(on bool) { s.mu.Lock(); s.honorCtx = on; s.mu.Unlock() }
+
+func (s *Store) ctxErr(ctx context.Context) error {
+	s.mu.Lock()
+	h := s.honorCtx
+	s.mu.Unlock()
+	if h && ctx != nil {
+		return ctx.Err()
+	}
+	return nil
 }
 
 // PauseNext arms the delay: the next call for which pred holds blocks (before executing) until Resume.
@@ -185,7 +202,10 @@ func (s *Store) FailAt(n int, err error) {
 // Reopen clears the closed flag (a new incarnation obtained a client).
 func (s *Store) Reopen() { s.mu.Lock(); s.closed = 0; s.mu.Unlock() }
 
-func (s *Store) Get(_ context.Context, k string) ([]byte, error) {
+func (s *Store) Get(ctx context.Context, k string) ([]byte, error) {
+	if err := s.ctxErr(ctx); err != nil {
+		return nil, err
+	}
 	s.maybePause("get", 0, 1, 0)
 	s.mu.Lock()
 	defer s.mu.Unlock()
@@ -199,7 +219,10 @@ func (s *Store) Get(_ context.Context, k string) ([]byte, error) {
 	return append([]byte(nil), v...), nil
 }
 
-func (s *Store) Set(_ context.Context, k string, v []byte) error {
+func (s *Store) Set(ctx context.Context, k string, v []byte) error {
+	if err := s.ctxErr(ctx); err != nil {
+		return err
+	}
 	s.maybePause("set", 1, 0, 0)
 	s.mu.Lock()
 	defer s.mu.Unlock()
@@ -210,7 +233,10 @@ func (s *Store) Set(_ context.Context, k string, v []byte) error {
 	return nil
 }
 
-func (s *Store) Delete(_ context.Context, k string) error {
+func (s *Store) Delete(ctx context.Context, k string) error {
+	if err := s.ctxErr(ctx); err != nil {
+		return err
+	}
 	s.maybePause("delete", 0, 0, 1)
 	s.mu.Lock()
 	defer s.mu.Unlock()
@@ -221,7 +247,10 @@ func (s *Store) Delete(_ context.Context, k string) error {
 	return nil
 }
 
-func (s *Store) Batch(_ context.Context, ops ...*storage.Operation) error {
+func (s *Store) Batch(ctx context.Context, ops ...*storage.Operation) error {
+	if err := s.ctxErr(ctx); err != nil {
+		return err
+	}
 	var sets, gets, dels int
 	for _, op := range ops {
 		switch op.Type {
